@@ -1,7 +1,8 @@
 (* C05/Examples.v — non-vacuity of every hypothesis used in Properties.v, and regression values of the
    executable model (vm_compute). *)
 From Coq Require Import ZArith QArith Reals Qreals List Bool Lra.
-From Abacus.C05 Require Import Expr Gen Spec Model Run.
+From Abacus.HaloTable Require Import Expr Gen Values Show.
+From Abacus.C05 Require Import Spec Run.
 Import ListNotations.
 
 (* a non-trivial stored row satisfies ratios_admissible: Min/3d = 1/4, Max/3d = 1/2 *)
